@@ -71,8 +71,11 @@ def text_stream(seed, n, texts=(0, 2, 10), prog=None, few_cells=False, toggles=F
     def settings():
         o = []
         for t in range(3):
-            o.append("c %d 0 %d" % (t, r.randrange(3)))
-            o.append("c %d 1 %d" % (t, r.randrange(3)))
+            # mostly the three defined levels; sometimes an out-of-range request (clamped to 'large' by the library), also
+            # on top of a threshold that is already at its maximum
+            v = lambda: r.randrange(3) if r.random() < 0.85 else r.choice([3, 4, 255, r.randrange(3, 256)])
+            o.append("c %d 0 %d" % (t, v()))
+            o.append("c %d 1 %d" % (t, v()))
             p = r.randrange(2) if prog is None else prog
             o.append("g %d %d" % (t, p))
         return o
@@ -223,6 +226,9 @@ def streams(pid, tier, seed):
         add("textfew", text_stream(seed + 3, 8000 if q else 200000, few_cells=True, toggles=True))
         # every threshold pair x every error level of the stored group x A/B switch-back with all text rejected
         add("rtlevels", gen.sweep_rt_levels(stride(2, 1), seed))
+        # one cell rewritten with a different character whose code point collides with the old one in a narrower type
+        du = infra.LAST_DUMPS.get("u")
+        add("confusable", gen.sweep_confusable({b: v[1] for b, v in du["g0"].items() if v[0]} if du else None))
     elif pid == "C05":
         add("wild", c05_stream(seed, 20000 if q else 300000))
         add("wildN", c05_stream(seed + 1, 8000 if q else 100000), "nh")
@@ -249,6 +255,7 @@ def streams(pid, tier, seed):
         add("ext", ext_stream(seed, 10000 if q else 200000))
     elif pid == "C12":
         add("sweepCt", gen.sweep_ct(stride(16, 1), seed))
+        add("ctstr", gen.ct_strings(seed, 350 if q else 5000))
         add("mixed", mixed_stream(seed, 8000 if q else 200000)[0])
     elif pid == "C13":
         add("mixed", mixed_stream(seed, 20000 if q else 300000)[0])
